@@ -522,10 +522,15 @@ func (w *c19World) step(act c19Action, faultAt int, faultErr error) {
 		case "empty-password": // a password member that is present and empty replaces the password like any other value
 			setPw = true
 			body["password"] = ""
+		case "long-password": // longer than bcrypt's 72 bytes: refusing it is fine, accepting it means ALL of it is the password
+			pw, setPw = fmt.Sprintf("pw-%s-%d-", u, act.n)+strings.Repeat("0123456789", 8), true
+			body["password"] = pw
 		}
 		rep := w.do(desc, jsonReq("PUT", "/users/"+u, body), faultAt, faultErr)
-		expectStatus(rep, 204)
-		if !faulted && rep.code == 204 {
+		if act.b != "long-password" || (rep.code >= 200 && rep.code < 300) {
+			expectStatus(rep, 204)
+		}
+		if !faulted && rep.code >= 200 && rep.code < 300 {
 			mu := m.users[u]
 			if mu == nil {
 				mu = &c19MUser{}
@@ -751,7 +756,7 @@ func (w *c19World) step(act c19Action, faultAt int, faultErr error) {
 		}
 		if rep.hasForm {
 			w.judgeAssertion(desc, rep, snap, cookieSent, "", "", target, "", faulted)
-			if !w.dead && have {
+			if !w.dead && have && !faulted { // model-based: off once a fault has made the model's picture of the store unreliable
 				wantRelay := ""
 				switch {
 				case sc.RelayState != nil:
@@ -926,6 +931,11 @@ func (w *c19World) creds(user, kind string) (string, string) {
 		right = mu.password
 	}
 	switch kind {
+	case "long-prefix": // the first 72 bytes of a longer password are not the password
+		if mu != nil && len(mu.password) > 72 {
+			return user, mu.password[:72]
+		}
+		return user, right + "-no"
 	case "previous-password":
 		if mu != nil && mu.previous != "" {
 			return user, mu.previous
@@ -987,6 +997,8 @@ func c19RandomAction(c *core.Ctx, w *c19World) c19Action {
 			b = "with-password" // default-cost bcrypt: expensive, sampled
 		case 2:
 			b = "empty-password"
+		case 3:
+			b = "long-password"
 		}
 		return c19Action{"putUser", users[r.Intn(3)], b, r.Intn(100)}
 	case k < 5:
@@ -1004,7 +1016,7 @@ func c19RandomAction(c *core.Ctx, w *c19World) c19Action {
 	case k < 14:
 		return c19Action{"delShortcut", "sc1", "", 0}
 	case k < 19:
-		return c19Action{"login", users[r.Intn(3)], []string{"right", "right", "wrong", "empty", "other-users-password", "unknown-user", "empty-user", "previous-password"}[r.Intn(8)], 0}
+		return c19Action{"login", users[r.Intn(3)], []string{"right", "right", "wrong", "empty", "other-users-password", "unknown-user", "empty-user", "previous-password", "long-prefix"}[r.Intn(9)], 0}
 	case k < 28:
 		return c19Action{"sso", sps[r.Intn(3)], cookies[r.Intn(len(cookies))], r.Intn(12)}
 	case k < 32:
@@ -1158,8 +1170,17 @@ func runC19(c *core.Ctx) {
 					c.Nontrivial(fmt.Sprintf("fault|%s|%d|%d|%v", strings.Join(w.hist, ";"), target, op, fe))
 					c.Count("fault_placements")
 					if !w.dead {
-						// after the fault the server must keep serving: probe
-						w.step(c19Action{"sso", "spa", "live", 0}, 0, nil)
+						// after the fault the server must keep serving, and what it serves must follow the store as it is now
+						// (the store-based clauses S1-S4 stay in force after a fault, only the model predictions are off):
+						// a fresh login, every SP, the shortcut, then the rest of the history
+						for _, pa := range []c19Action{{"login", "alice", "right", 0}, {"sso", "spa", "live", 0}, {"sso", "spb", "live", 1}, {"sso", "spc", "live", 0}, {"shortcut", "sc1", "live", 0}} {
+							if !w.dead {
+								w.step(pa, 0, nil)
+							}
+						}
+						for i := target + 1; i < len(acts) && !w.dead; i++ {
+							w.step(acts[i], 0, nil)
+						}
 					}
 				}
 			}
